@@ -421,6 +421,9 @@ def run(ctx):
     rng.shuffle(pick)
     chains = [i for i, c in enumerate(cases) if c['kind'].startswith('chain:') or c['kind'].startswith('nest')]
     chosen = (chains if not ctx.quick() else chains[::3]) + pick[:(60 if ctx.quick() else 1200)]
+    # an input on which a stage already hung or died in-process is a reported violation: it is not run through the binary
+    # again (a hang that many inputs trigger must not turn the check into a wait of CLI_TIMEOUT per input and action)
+    chosen = [i for i in chosen if 'st' in cases[i]]
     # the deepest tree a file within the size limit can hold goes through the binary in every tier (the stack of the
     # compiler thread is a constant of the binary)
     cases.append(dict(kind='chain:+', data=chain('+', 65536).encode(), sub='65536-cli'))
